@@ -70,10 +70,12 @@ func genC11(rt *rapid.T) c11Req {
 		q.Key = []string{"  " + q.Key[0] + " "}
 	}
 	// subprotocols
-	protos := []string{"chat", "Chat", "superchat", "echo", "v2.proto", ""}
+	// names that differ only in letter case match; names that differ in one punctuation
+	// character (pairs that collapse under a "|0x20" fold: ^~  |\  `@) do not
+	protos := []string{"chat", "Chat", "superchat", "echo", "v2.proto", "chat~1", "chat^1", "a|b", "a\\b", "x`y", "x@y", ""}
 	if rapid.Bool().Draw(rt, "withProtos") {
 		for i := rapid.IntRange(0, 3).Draw(rt, "nSupported"); i > 0; i-- {
-			q.Supported = append(q.Supported, rapid.SampledFrom(protos[:5]).Draw(rt, "supported"))
+			q.Supported = append(q.Supported, rapid.SampledFrom(protos[:len(protos)-1]).Draw(rt, "supported"))
 		}
 		var offered []string
 		for i := rapid.IntRange(0, 4).Draw(rt, "nOffered"); i > 0; i-- {
